@@ -48,6 +48,7 @@ class Contract:
     is_lemma: bool = False
     quick_restricted: bool = False
     loop_invariants: dict = field(default_factory=dict)   # while-loop ordinal -> {"shapes": {...}, "inv": "..."}
+    prove_in: str = "both"        # "thorough": the deductive part runs in the thorough tier only (bounded part in both)
     deductive: bool = True        # False: the contract is only checked natively (bounded), its body is not executed symbolically
 
 
@@ -138,6 +139,8 @@ class Registry:
                         c.deductive = bool(val)
                     elif n == "loop_invariants":
                         c.loop_invariants = dict(val)
+                    elif n == "prove_in":
+                        c.prove_in = str(val)
                 elif isinstance(b, ast.FunctionDef):
                     cprops = props
                     known = []
